@@ -21,6 +21,8 @@ RULE = ('(a) 8 documented + 2 undocumented keys x code{absent,value,callable,fal
         'exclude{none,one,two} x app root{none,one}, given as lists, as documented comma strings in code, and as environment text; '
         'non-trivial = code and environment disagree, or a prefix list has >= 1 entry'
         ' ; include / exclude text with empty items (trailing and doubled commas) in code and environment')
+RULE_ADDED = 'round 4: code value None; environment set after the import of deep; code-form exclude lists without the built-in entry'
+RULE = RULE + ' ; ' + RULE_ADDED
 ASSUMPTIONS = ['sys.exec_prefix is always excluded (documented default), in whichever form the rest of the list is given']
 
 DOCUMENTED = ['SERVICE_URL', 'SERVICE_SECURE', 'LOGGING_CONF', 'POLL_TIMER', 'SERVICE_AUTH_PROVIDER', 'IN_APP_INCLUDE', 'IN_APP_EXCLUDE', 'APP_ROOT']
